@@ -568,11 +568,13 @@ def shrink(v, prop, run_pair, canon, split_blocks, first_diff, orc, rundir, stri
 for p in ("C08", "C09"):
     FAMILIES[p] = SpecialFamily()
 for p in ("C03", "C04"):
-    FAMILIES[p] = Multi(HistFamily(), SweepFamily())
+    # states reached through copy / move / swap between vectors of different fixed sizes count as
+    # reachable states of the layout properties too (seeded change C04d)
+    FAMILIES[p] = Multi(HistFamily(), SpecialFamily(nlists=6, nscripts=8), SweepFamily())
 FAMILIES["C10"] = Multi(HistFamily(strict_block=False, nhist=10, nfill=10, via_reserve=True), SweepFamily(nunits=2))
 FAMILIES["C16"] = Multi(HistFamily(nlists=16, nhist=8), SpecialFamily(nlists=6, nscripts=8))
 FAMILIES["C18"] = Multi(EmptyFamily(), HistFamily(nlists=8, nhist=6, nfill=2))
-FAMILIES["C01"] = Multi(HistFamily(allow_overlap=True), SweepFamily())
+FAMILIES["C01"] = Multi(HistFamily(allow_overlap=True), SpecialFamily(nlists=6, nscripts=8), SweepFamily())
 FAMILIES["C05"] = Multi(HistFamily(nlists=16, nhist=8), SpecialFamily(nlists=6, nscripts=8), SweepFamily())
 FAMILIES["C07"] = Multi(HistFamily(nlists=16, nhist=8), SpecialFamily(nlists=6, nscripts=8))
 FAMILIES["C06"] = Multi(HistFamily(nlists=16, nhist=8, allow_overlap=True), SpecialFamily(nlists=6, nscripts=8))
